@@ -183,6 +183,10 @@ pub proof fn lemma_sub_ok(ts: Seq<Token>, a: int, b: int)
 /// X3: stands for the repository's debug_assert_adjacent! (a `windows(2).all(..)` run-time check)
 #[verifier::external_body]
 pub fn check_adjacent(ts: &[Token]) requires adjacent(ts@) /* [panic] */ {}
+/// C05: token kinds that can hold a letter or a digit outside comments
+pub open spec fn content_kind(k: TokenKind) -> bool { k == TokenKind::Word || k == TokenKind::Int || k == TokenKind::ZeroInt || k == TokenKind::Escaped }
+/// first byte of a token's content (an escaped token's content starts after the backslash)
+pub open spec fn cs(t: Token) -> int { if t.kind == TokenKind::Escaped { t.span.s() + 1 } else { t.span.s() } }
 /// end offset of everything before token `index`
 pub open spec fn cur_off(ts: Seq<Token>, index: int) -> int { if index == 0 { ts[0].span.s() } else { ts[index - 1].span.e() } }
 } // verus!
@@ -312,6 +316,16 @@ impl<'a> Text<'a> {
     pub closed spec fn frags(&self) -> Seq<TextFragment<'a>> { self.data.frags() }
     pub closed spec fn start_spec(&self) -> int { self.data.start_spec() }
     pub closed spec fn end_spec(&self) -> int { self.data.end_spec() }
+    pub proof fn lemma_span_order(&self)
+        requires self.wf()
+        ensures self.start_spec() <= self.end_spec()
+    {
+        if self.frags().len() > 0 {
+            let a = self.frags()[0]; let b = self.frags().last();
+            assert(a.s() < a.e());
+            if self.frags().len() > 1 { assert(a.e() <= b.s()); assert(b.s() < b.e()); }
+        }
+    }
     /// C04: all fragments are faithful input slices
     pub open spec fn faithful(&self) -> bool { forall|k: int| 0 <= k < self.frags().len() ==> (#[trigger] self.frags()[k]).faithful() }
 
@@ -596,6 +610,19 @@ use crate::{
     span::Span,
 };
 verus! {
+/// C04: fragment f lies in [lo, hi] and is the input slice at its span
+pub open spec fn frag_ok(f: TextFragment, lo: int, hi: int) -> bool { lo <= f.s() && f.e() <= hi && f.faithful() }
+pub open spec fn frags_ok(fs: Seq<TextFragment>, lo: int, hi: int) -> bool { forall|k: int| 0 <= k < fs.len() ==> frag_ok(#[trigger] fs[k], lo, hi) }
+pub proof fn lemma_frags_weaken(fs: Seq<TextFragment>, lo: int, hi: int, hi2: int)
+    requires frags_ok(fs, lo, hi), hi <= hi2 ensures frags_ok(fs, lo, hi2) {}
+pub proof fn lemma_frags_push(pre: Seq<TextFragment>, post: Seq<TextFragment>, lo: int, hi: int, hi2: int)
+    requires frags_ok(pre, lo, hi), hi <= hi2, post.len() == pre.len() + 1, post.drop_last() == pre, frag_ok(post.last(), lo, hi2)
+    ensures frags_ok(post, lo, hi2)
+{
+    assert forall|k: int| 0 <= k < post.len() implies frag_ok(#[trigger] post[k], lo, hi2) by {
+        if k < pre.len() { assert(post.drop_last()[k] == post[k]); assert(frag_ok(pre[k], lo, hi)); }
+    }
+}
 /*@ type src/parser/block_parser.rs BlockParser
 derive
 @*/
@@ -695,11 +722,10 @@ spec:
             tokens@.len() == 0 ==> t.frags().len() == 0 && t.start_spec() == offset && t.end_spec() == offset,
             tokens@.len() > 0 ==> tokens@[0].span.s() <= t.start_spec() && t.end_spec() <= tokens@.last().span.e(),    // [C04]
             // every fragment lies inside the token range and is the input slice at its span
-            forall|k: int| 0 <= k < t.frags().len() ==> {
-                let f = #[trigger] t.frags()[k];
-                &&& tokens@[0].span.s() <= f.s() && f.e() <= tokens@.last().span.e()
-                &&& f.faithful()
-            },      // [C04]
+            tokens@.len() > 0 ==> frags_ok(t.frags(), tokens@[0].span.s(), tokens@.last().span.e()),      // [C04]
+            // [C05] every token that can hold a letter or digit lies inside the text's span
+            forall|k: int| 0 <= k < tokens@.len() && content_kind(tokens@[k].kind) && cs(tokens@[k]) < tokens@[k].span.e() ==>
+                t.frags().len() > 0 && t.start_spec() <= cs(#[trigger] tokens@[k]) && tokens@[k].span.e() <= t.end_spec(),      // [C05]
 before `debug_assert_adjacent!(tokens);`:
         broadcast use axiom_str_len_bound;
         proof { assert(blen(self.input) <= usize::MAX); }
@@ -712,30 +738,36 @@ loop 0 it it:
                 gbnd(start as int), gbnd(end as int),     // [C04]
                 tokens@[0].span.s() <= start,
                 gbnd(t.start_spec()), gbnd(t.end_spec()),     // [C04]
+                forall|k: int| 0 <= k < it.index@ && content_kind(tokens@[k].kind) && cs(tokens@[k]) < tokens@[k].span.e() ==> {
+                    &&& (t.frags().len() > 0 || start < end)
+                    &&& (if t.frags().len() > 0 { t.start_spec() } else { start as int }) <= cs(#[trigger] tokens@[k])
+                    &&& tokens@[k].span.e() <= (if start < end { end as int } else { t.end_spec() })
+                },      // [C05]
                 t.frags().len() == 0 ==> t.start_spec() == tokens@[0].span.s(),
                 t.frags().len() > 0 ==> tokens@[0].span.s() <= t.start_spec(),
-                forall|k: int| 0 <= k < t.frags().len() ==> {
-                    let f = #[trigger] t.frags()[k];
-                    &&& tokens@[0].span.s() <= f.s() && f.e() <= start
-                    &&& f.faithful()
-                },     // [C04]
+                frags_ok(t.frags(), tokens@[0].span.s(), start as int),     // [C04]
 before `match token.kind {`:
+            proof { t.lemma_span_order(); }
             proof { let idx = it.index@ as int; lemma_mono(tokens@, 0, idx); assert(*token == tokens@[idx]); if idx > 0 { assert(tokens@[idx - 1].span.e() == tokens@[idx].span.s()); } }
+            let ghost pre = t.frags();
+            let ghost lo = tokens@[0].span.s();
+            let ghost start0 = start as int;
+after `t.append_str(&self.input[start..end], start);`#0:
+                    proof { if t.frags().len() > pre.len() { lemma_frags_push(pre, t.frags(), lo, start0, end as int); } else { lemma_frags_weaken(pre, lo, start0, end as int); } }
+                    let ghost pre2 = t.frags();
+before `start = token.span.end();`#0:
+                    proof { assert(t.frags().drop_last() =~= pre2); lemma_frags_push(pre2, t.frags(), lo, end as int, token.span.e()); }
+after `t.append_str(&self.input[start..end], start);`#1:
+                    proof { if t.frags().len() > pre.len() { lemma_frags_push(pre, t.frags(), lo, start0, token.span.e()); } else { lemma_frags_weaken(pre, lo, start0, token.span.e()); } }
+after `t.append_str(&self.input[start..end], start);`#2:
+                    proof { if t.frags().len() > pre.len() { lemma_frags_push(pre, t.frags(), lo, start0, token.span.s() + 1); } else { lemma_frags_weaken(pre, lo, start0, token.span.s() + 1); } }
 before `t.append_str(&self.input[start..end], start);`#3:
-        proof { lemma_mono(tokens@, 0, tokens@.len() - 1); assert(end <= tokens@.last().span.e()); }
+        proof { lemma_mono(tokens@, 0, tokens@.len() - 1); assert(end <= tokens@.last().span.e()); t.lemma_span_order(); }
         let ghost pre = t.frags();
+        let ghost lo = tokens@[0].span.s();
+        let ghost start0 = start as int;
 after `t.append_str(&self.input[start..end], start);`#3:
-        proof {
-            assert forall|k: int| 0 <= k < t.frags().len() implies ({
-                let f = #[trigger] t.frags()[k];
-                tokens@[0].span.s() <= f.s() && f.e() <= tokens@.last().span.e() && f.faithful()
-            }) by {
-                if t.frags().len() > pre.len() {
-                    if k < pre.len() { assert(t.frags().drop_last()[k] == t.frags()[k]); assert(t.frags()[k] == pre[k]); }
-                    else { assert(t.frags()[k] == t.frags().last()); }
-                }
-            }
-        }
+        proof { if t.frags().len() > pre.len() { lemma_frags_push(pre, t.frags(), lo, start0, tokens@.last().span.e()); } else { lemma_frags_weaken(pre, lo, start0, tokens@.last().span.e()); } }
 @*/
 /*@ fn src/parser/block_parser.rs BlockParser::capture_slice
 tags C03 C05
